@@ -106,7 +106,12 @@ class Unit:
             q, _, sig = spec.partition('#')
             cands = ix.functions.get(q)
             if not cands:
-                raise Undecided('function %s not found in %s (renamed or removed?)' % (q, ' '.join(self.tus)))
+                # a helper that the code no longer has (inlined / merged by an edit): nothing calls it any more, whatever replaced it is lowered
+                # on demand from its callers.  Only a function that a proof is ABOUT (enforce target) must exist.
+                qc = lower.mangle_core(q)
+                if any(p.kind == 'enforce' and (p.target == qc or p.target.startswith(qc + '__')) for p in self.proofs):
+                    raise Undecided('function %s not found in %s (renamed or removed?)' % (q, ' '.join(self.tus)))
+                self.vanished.append(q); continue
             if sig:
                 wantc = sig.endswith('__const')
                 if wantc: sig = sig[:-7]
